@@ -2,6 +2,7 @@ package rules
 
 import (
 	"fmt"
+	"os"
 	"go/types"
 	"sort"
 	"strings"
@@ -866,4 +867,48 @@ func c05HostsIgnoreStopReason(c *Ctx, rule string) {
 		}
 	}
 	c.R.Check(bad == "", rule, "hosts: no decision depends on why a walk stopped", "sio/crew.go", fmt.Sprintf("%d branch conditions in the hosts examined, none reads Walked.StoppedBecause", n), "a host decides on Walked.StoppedBecause in "+bad+": a walk that stopped at the limit (or a breakpoint) is then installed, stored or reported differently, and the machine's next step does not start from the state its previous step produced")
+}
+
+// c09CrewKeepsOnlyReportedState: C09-R11 / C15.  Between messages the single-loop crew keeps, per machine, only what it
+// reports: the machine's state (and spec), the pending change records and the duplicate-suppression records.  E1 from
+// Crew.RunMachine with the crew protected: every write that can reach the crew goes to one of those places.  A side
+// table (held messages, counters, caches of intermediate results) is state of a machine that no store ever sees.
+func c09CrewKeepsOnlyReportedState(c *Ctx, rule string) {
+	rm := c.P.Func("sio", "Crew", "RunMachine")
+	if rm == nil || len(rm.Params) < 4 {
+		c.R.Break(rule + ": sio.(*Crew).RunMachine not found")
+		return
+	}
+	roots := map[int]pta.RootSpec{0: {Name: "crew", Levels: 3}}
+	a := pta.New(pta.Config{Prog: c.P, EnginePkgs: map[string]bool{"sio": true, "crew": true}, Entries: []*ssa.Function{rm}, Roots: map[*ssa.Function]map[int]pta.RootSpec{rm: roots}, External: stdExternal})
+	a.Run()
+	c.noteAnalysis(a)
+	allowed := func(t string) bool {
+		for _, p := range []string{"root:crew.changed", "root:crew.Machines", "root:crew.previous", "root:crew.timers", "root:crew.Mutex", "root:crew.RWMutex"} {
+			if strings.HasPrefix(t, p) {
+				return true
+			}
+		}
+		return false
+	}
+	n, total := 0, 0
+	for _, e := range a.Effects() {
+		if !strings.HasPrefix(e.Target.Name, "root:crew") {
+			continue
+		}
+		total++
+		if allowed(e.Target.Name) {
+			continue
+		}
+		n++
+		c.R.Violate(rule, fmt.Sprintf("%s|writes %s", e.Key, e.Target.Name), c.pos(e.Site.Instr), fmt.Sprintf("%s in %s writes %s: the crew keeps something about a machine outside its reported state (path: %s); a crew rebuilt from what was reported lacks it and continues differently", e.Site.Kind, fname(e.Site.Fn), e.Target.Name, strings.Join(e.Origin, " -> ")))
+	}
+	if os.Getenv("VERIF_DEBUG") != "" {
+		for _, e := range a.Effects() {
+			fmt.Fprintf(os.Stderr, "RunMachine effect: %s %s\n", e.Key, e.Target.Name)
+		}
+	}
+	if n == 0 {
+		c.R.Discharge(rule, "RunMachine: the crew keeps only what it reports", c.P.Pos(rm.Pos()), fmt.Sprintf("%d writes into the crew, all to the machines' states, the change records or the timers", total))
+	}
 }
